@@ -434,4 +434,9 @@ theorem c01_411_witness :
       ≠ wfeed .server ["GET / HTTP/1.1\r\nHost: h\r\n\r\n".toUTF8.toList, "GET / HTTP/1.1\r\nHost: h\r\n\r\n".toUTF8.toList] := by
   decide +kernel
 
+/-- T1: the state machines of this tree carry no finite size limit by default (the model has none: a request line or a header
+    section may be as long as the peer sends it, in one call or in many).  A tree that sets `MAX_URI_LENGTH` or the like to a
+    number is outside the model until the limit is modelled; the check then looks for a stream whose outcome depends on the cuts. -/
+theorem no_size_limits : Gen.stateMachineLimits = [] := by decide +kernel
+
 end Httoop.Parser
